@@ -71,7 +71,7 @@ def judge(ctx, src, its):
         records.append(rec)
         ctx.evaluations += len(rec["routes"])
     ctx.log("Act T: TLC judges %d records (%d observations)" % (len(records), ctx.evaluations))
-    res = tlc.validate_traces("NWTrace", "NWTrace.cfg", records, chunk=300, parallel=12)
+    res = tlc.validate_traces("NWTrace", "NWTrace.cfg", records, chunk=300, parallel=12, canary_fields=["value"])
     ctx.add_tv(res)
     classify(ctx, by_id, res["fails"])
     ctx.nontrivial = {it["id"] for it in its if len(it["s1"]) != len(it["s2"]) or it["scoring"]["kind"] != "default"}
